@@ -502,7 +502,8 @@ def run(F, rep):
     import c12
     c12.rule_h1(F, rep, 'C02.H1', [s for s in c12.STATE if s[0] == 'Parser::ParserImpl'])
     import c16
-    c16.run(F, core.Borrowed(rep, only={'C16.P1'}))
+    if not getattr(rep, 'nested', False):
+        c16.run(F, core.Borrowed(rep, only={'C16.P1'}))
 
     # ------------------------------------------------------------------ A: flags gathered over loops
     from engines import rule_accumulators
